@@ -357,7 +357,65 @@ def parser_skeleton(repo):
     import re
     py = open(os.path.join(repo, "blackbird_python", "blackbird", "blackbirdParser.py"), encoding="utf-8").read()
     cpp = open(os.path.join(repo, "blackbird_cpp", "blackbirdParser.cpp"), encoding="utf-8").read()
+    def py_control(src):
+        """(ATN state entered last, kind of control statement) for every decision in the rule code"""
+        out, last, prev = [], None, ""
+        for ln in src.split("\n"):
+            t = ln.strip()
+            if not t:
+                continue
+            m = re.match(r"self\.state = (\d+)$", t)
+            if m:
+                last = int(m.group(1))
+            k = None
+            if re.match(r"if _la==|if \(\(\(", t):
+                k = "IF"
+            elif re.match(r"while _la==|while \(\(\(\(_la\)", t):
+                k = "WHILE"
+            elif t.startswith("while _alt!="):
+                k = "PLUSALT" if prev == "_alt = 1" else "WHILEALT"
+            elif t == "while True:":
+                k = "PLUS"
+            elif t.startswith("if la_ == 1"):
+                k = "ALT"
+            elif t.startswith("if token in"):
+                k = "SWITCH"
+            if k:
+                out.append((last, k))
+            prev = t
+        return out
+
+    def cpp_control(src):
+        out, last, prev = [], None, ""
+        for ln in src.split("\n"):
+            t = ln.strip()
+            if not t:
+                continue
+            m = re.match(r"setState\((\d+)\);$", t)
+            if m:
+                last = int(m.group(1))
+            k = None
+            if re.match(r"if \(_la == |if \(\(\(\(_la", t):
+                k = "IF"
+            elif re.match(r"while \(_la == |while \(\(\(\(_la", t):
+                k = "WHILE"
+            elif t.startswith("while (alt != "):
+                k = "WHILEALT"
+            elif t == "do {":
+                k = "PLUSALT" if prev == "alt = 1;" else "PLUS"
+            elif t.startswith("switch (getInterpreter<atn::ParserATNSimulator>()->adaptivePredict("):
+                k = "ALT"
+            elif t.startswith("switch (_input->LA(1))"):
+                k = "SWITCH"
+            if k:
+                out.append((last, k))
+            prev = t
+        return out
+
+    pc, cc = py_control(py), cpp_control(cpp)
     return {
+        "pyControlStates": [n for n, _ in pc], "pyControlKinds": [k for _, k in pc],
+        "cppControlStates": [n for n, _ in cc], "cppControlKinds": [k for _, k in cc],
         "pyPredict": [int(x) for x in re.findall(r"adaptivePredict\(self\._input,\s*(\d+),\s*self\._ctx\)", py)],
         "cppPredict": [int(x) for x in re.findall(r"adaptivePredict\(_input,\s*(\d+),\s*_ctx\)", cpp)],
         "pyStates": [int(x) for x in re.findall(r"self\.state = (\d+)", py)],
@@ -377,9 +435,9 @@ def emit_artefacts(data, names, toks):
     for k in sorted(toks):
         out.append(emit_tokens(k, toks[k]))
     sk = parser_skeleton(REPO)
-    for k in ("pyPredict", "cppPredict", "pyStates", "cppStates"):
+    for k in ("pyPredict", "cppPredict", "pyStates", "cppStates", "pyControlStates", "cppControlStates"):
         out.append(emit_nat_list(k, sk[k]))
-    for k in ("pyMatch", "cppMatch"):
+    for k in ("pyMatch", "cppMatch", "pyControlKinds", "cppControlKinds"):
         out.append(emit_str_list(k, sk[k]))
     out.append("end Gen")
     return "\n".join(out) + "\n"
